@@ -114,6 +114,37 @@ def cnt_oracle(pid, res, driver):
     return findings
 
 
+def cnt_post_search(pid, res):
+    """C08: quotient sums around 2^32 reached THROUGH THE ENCODER (which builds residuals without the constructor's
+    checks): loud 24-bit blocks coded with Rice parameter 0 and the order-0 fixed predictor.  Only the implementation
+    is consulted: count_bits of every frame and of the stream against the bits a counting sink receives."""
+    hb = fv.build_harness("release")
+    out = fv.sh([hb, "dump"], timeout=600).stdout
+    cfgd = re.search(r"^cfgdefault (\S+)", out, re.M).group(1)
+    def cfg(bs, **kw):
+        c = re.sub(r"bs=\d+", "bs=%d" % bs, cfgd)
+        for k, v in dict(mt=0, ul=0, fo=0, mp=0, **kw).items():
+            c = re.sub(r"(^|;)%s=[^;]*" % k, lambda m: "%s%s=%s" % (m.group(1), k, v), c)
+        return c
+    cases = []
+    for j, (bs, ch, x) in enumerate([(32767, 1, 65540), (32767, 1, 65530), (32767, 1, 70000), (32767, 1, -65541), (16384, 1, 131100),
+                                     (32767, 2, 65540), (8192, 1, 262200), (32767, 1, 131080)]):
+        n = bs * ch
+        vals = ",".join(str(x + ((k * 7) % 5) - 2) for k in range(n))
+        cases.append("CNT ps%d E %s 44100 %d 24 %d %s" % (j, cfg(bs), ch, bs, vals))
+    outs = fv.run_lines([hb, "run"], cases, timeout=900)
+    findings = []
+    for c, o in zip(cases, outs):
+        m = re.search(r"count=(\d+) written=(\d+)", o)
+        if " ok " in o and m and m.group(1) != m.group(2):
+            findings.append({"case": c, "impl": o[:300], "profile": "release",
+                             "why": "count_bits differs from the number of bits written for a stream made by the encoder (quotient sum around 2^32)"})
+        elif o.endswith("panic"):
+            findings.append({"case": c, "impl": o[:300], "profile": "release", "why": "count_bits/write panicked on an encoder-made stream"})
+    res.extra["post_search_cases"] = len(cases)
+    return findings
+
+
 CNT_STREAM = {"name": "CNT", "quick": 1500, "thorough": 30000, "profiles": ["debug", "release"], "nontrivial": nontrivial_cnt}
 
 PROPS["C08"] = {
@@ -123,6 +154,7 @@ PROPS["C08"] = {
     "streams": "ENC+CNT",
     "rule": "ENC+CNT",
     "oracle": cnt_oracle,
+    "post_search": cnt_post_search,
     "assumptions": ["shape hypotheses (wf_residual, sub_shape, frame_ops_wfb) are decidable side conditions; the encoder's outputs "
                     "are shown to satisfy them by correspondence (and by proof where Proofs/* state it)",
                     "stream-level sum is checked on every ENC case (cb field) and follows from the frame theorem"],
@@ -1047,6 +1079,8 @@ def run_streams(pid, spec, tier, seed, res, replay_cases=None):
                     dist[st["name"] + ":" + kind] = dist.get(st["name"] + ":" + kind, 0) + 1
                 cmpf = st.get("cmp")
                 cmpm = st.get("cmp_model", cmpf)
+                if mo.endswith("model-not-consulted"):
+                    continue     # targeted-search cases judged by the property oracle on the implementation alone
                 if (cmpf(io) != cmpm(mo)) if cmpf else (io != mo):
                     disagreements.append({"stream": st["name"], "profile": prof, "case": c, "impl": io, "model": mo})
     res.extra["distribution"] = dist
@@ -1166,6 +1200,20 @@ def run_check(pid, spec, tier, seed, replay):
             if len([v for v in res.violations if v.get("kind") == "correspondence"]) < 3:
                 res.violations.append({"kind": "correspondence", "has_input": False, "why": cls["why"],
                                        "no_longer_checks": "correspondence stream %s" % d["stream"], **d})
+    if not found_input and (disagreements or res.proof_failure is not None) and spec.get("post_search"):
+        # the model and the implementation no longer agree but no explored case violates the property itself:
+        # look for one with inputs aimed at what the property is about
+        try:
+            extra = spec["post_search"](pid, res)
+        except Exception as e:   # best effort
+            extra = []
+            res.extra["post_search_error"] = str(e)[:300]
+        res.extra["post_search_findings"] = len(extra)
+        if extra:
+            found_input = True
+            res.violations = [v for v in res.violations if v.get("kind") != "correspondence"]
+            for fd in extra[:2]:
+                res.violations.append(dict(fd, kind="counterexample", has_input=True))
     if res.proof_failure is not None and not found_input:
         res.violations.append(res.proof_failure)
     elif res.proof_failure is not None:
